@@ -6,7 +6,7 @@ from symx.engine import site, smax
 ID = "C06"
 MODULES = ["hta.trace_analysis"]
 MUST_NOT_RAISE = True
-BUDGET_S = {"quick": 420, "thorough": 3000}
+BUDGET_S = {"quick": 420, "thorough": 1200}
 CATS = {0: "host_wait", 1: "kernel_wait", 2: "other"}
 BOUNDS = {
     "quick": "1..3 linked launch/kernel pairs on 1 or 2 streams (all stream assignments up to symmetry), streams "
